@@ -23,20 +23,45 @@ BIND_HOOK_RE = re.compile(r"(func \(gb \*gcpBalancer\) bindSubConn(?:Ref)?\([^)]
 # nothing to stop.
 DETECT_HOOK_RE = re.compile(r"(\n[ \t]*)(if scRef\.deCallsInc\(\) >=)")
 
+# fourth schedule hook: in monitoredConn.monitor, between notify and WaitForStateChange (the monitor has told the
+# MultiEndpoints a state and is about to sleep until the connection leaves it): operation `livemon … park=1` stops the
+# monitor there while the connection's state comes and goes and an update reports the pools' states
+MONITOR_HOOK_RE = re.compile(r"(\n[ \t]*)((?:if !)?mc\.conn\.WaitForStateChange\(\w+, (\w+)\))")
+
 OTHER_CLOCK = re.compile(r"\btime\.(Since|Until)\(")
 
 class RewriteError(Exception):
     pass
+
+def deliver_shim(pkgdir):
+    """verifDeliver(mc, state): how the harness hands a pool's connectivity state to the MultiEndpoints, as the
+    monitor goroutine does. The function the monitor uses for that has had two shapes: `notify(state)` (takes the
+    GCPMultiEndpoint's read lock itself) and, since F35, `reportLocked(state)` (the caller holds the lock; `notify()`
+    reads the state under it). The shim is generated for the shape the current source has."""
+    src = ""
+    p = os.path.join(pkgdir, "gcp_multiendpoint.go")
+    if os.path.exists(p):
+        src = open(p).read()
+    if re.search(r"func \(mc \*monitoredConn\) reportLocked\(state connectivity\.State\)", src):
+        body = "\tmc.gme.mu.RLock()\n\tdefer mc.gme.mu.RUnlock()\n\tmc.reportLocked(st)\n"
+        shape = "reportLocked"
+    else:
+        body = "\tmc.notify(st)\n"
+        shape = "notify"
+    return ("\nfunc verifDeliver(mc *monitoredConn, st connectivity.State) {\n" + body + "}\n\nconst verifDeliverShape = \"" + shape + "\"\n",
+            "import \"google.golang.org/grpc/connectivity\"\n")
 
 def rewrite_sources(kind, pkgdir, work):
     out = {}
     hooked = False
     bind_hooked = False
     detect_hooked = False
+    monitor_hooked = False
     if kind == "nohook":
         # real clock, no schedule hook (race-detector stress): only tell the harness so
         gen = os.path.join(work, "zz_verif_hookgen_test.go")
-        open(gen, "w").write("//go:build verif\n\npackage grpcgcp\n\nconst verifHookInstalled = false\nconst verifBindHookInstalled = false\nconst verifDetectHookInstalled = false\n")
+        shim, imp = deliver_shim(pkgdir)
+        open(gen, "w").write("//go:build verif\n\npackage grpcgcp\n\n" + imp + "\nconst verifHookInstalled = false\nconst verifBindHookInstalled = false\nconst verifDetectHookInstalled = false\nconst verifMonitorHookInstalled = false\n" + shim)
         return {os.path.join(pkgdir, "zz_verif_hookgen_test.go"): gen}
     if kind != "vclock":
         raise RewriteError("unknown rewrite " + kind)
@@ -57,6 +82,9 @@ def rewrite_sources(kind, pkgdir, work):
             hooked = hooked or n == 1
             new, n2 = BIND_HOOK_RE.subn(r"\1verifHookBind(); \2", new)
             bind_hooked = bind_hooked or n2 >= 1
+        if os.path.basename(path) == "gcp_multiendpoint.go":
+            new, n4 = MONITOR_HOOK_RE.subn(r"\1verifHookMonitorWait(mc.endpoint, \3); \2", new, count=1)
+            monitor_hooked = monitor_hooked or n4 == 1
         if os.path.basename(path) == "gcp_picker.go":
             new, n3 = DETECT_HOOK_RE.subn(r"\1verifHookDetect(); \2", new, count=1)
             detect_hooked = detect_hooked or n3 == 1
@@ -67,6 +95,7 @@ def rewrite_sources(kind, pkgdir, work):
         out[path] = dst
     # tell the harness whether the hook could be placed (a refactored newSubConn: no `pickhold` operations)
     gen = os.path.join(work, "zz_verif_hookgen_test.go")
-    open(gen, "w").write("//go:build verif\n\npackage grpcgcp\n\nconst verifHookInstalled = %s\nconst verifBindHookInstalled = %s\nconst verifDetectHookInstalled = %s\n" % ("true" if hooked else "false", "true" if bind_hooked else "false", "true" if detect_hooked else "false"))
+    shim, imp = deliver_shim(pkgdir)
+    open(gen, "w").write("//go:build verif\n\npackage grpcgcp\n\n" + imp + "\nconst verifHookInstalled = %s\nconst verifBindHookInstalled = %s\nconst verifDetectHookInstalled = %s\nconst verifMonitorHookInstalled = %s\n" % ("true" if hooked else "false", "true" if bind_hooked else "false", "true" if detect_hooked else "false", "true" if monitor_hooked else "false") + shim)
     out[os.path.join(pkgdir, "zz_verif_hookgen_test.go")] = gen
     return out
